@@ -2,6 +2,8 @@
 import asyncio
 
 import seqrun as S
+import socket
+
 import simnet
 from scenario import Scenario
 
@@ -50,6 +52,19 @@ async def s_pasv_twice(ctl):
     await ctl.cmd(c, "PASV")
     await ctl.data(c)
     await ctl.cmd(c, "RETR f.txt")
+
+
+async def s_ipv6_passive(ctl):
+    # over IPv6 PASV is refused (503) - and whatever it made on the way is given back - EPSV serves
+    c = await ctl.client()
+    await ctl.login(c)
+    await ctl.cmd(c, "PASV")
+    await ctl.cmd(c, "EPSV")
+    await ctl.data(c)
+    await ctl.cmd(c, "RETR f.txt")
+    await ctl.cmd(c, "PASV")
+    await ctl.cmd(c, "PWD")
+    await ctl.cmd(c, "QUIT")
 
 
 async def s_retr(ctl):
@@ -301,6 +316,8 @@ def corpus(thorough=False):
         Scenario("pool", s_pasv_twice, tree=TREE_BIG, server_kwargs={"data_ports": [41001, 41002]}),
         Scenario("pool-two-sessions", s_two_sessions, tree=TREE_BIG, server_kwargs={"block_size": 64, "data_ports": [41001, 41002, 41003]}),
         Scenario("idle", s_idle, server_kwargs={"idle_timeout": 3}),
+        Scenario("ipv6-passive", s_ipv6_passive, family=socket.AF_INET6),
+        Scenario("ipv6-passive-pool", s_ipv6_passive, server_kwargs={"data_ports": [41001, 41002]}, family=socket.AF_INET6),
         # a backend whose calls take (virtual) time - above all close(), which a cancelled worker still awaits on its
         # way out: server.close() comes back only when that is over
         Scenario("stor@slow-backend", s_stor, server_kwargs=small_blocks, spy_setup=slow_backend(0.25)),
